@@ -86,7 +86,7 @@ def main(chk):
 
     def one(k):
         d = env.subdir('c01-n%d' % k)
-        res = progs.run_program(w2c2, ('c01-nested', k), prof, d, pbuilds, n_funcs=12, vectors=vectors)
+        res = progs.run_program(w2c2, ('c01-nested', k), prof, d, pbuilds, n_funcs=12, vectors=vectors, opts=progs.opts_for(k))
         return k, res
 
     rejected = 0
